@@ -353,7 +353,7 @@ pub fn gen_args(name: &str, sig: &str, r: &mut Rng) -> Vec<Val> {
                     let sc = dot.mag / m * dot.angle.project(Angle::new(0.0, 1.0));
                     ulps(sc.clamp(-1.0, 1.0).acos(), r.range(-1, 1))
                 } else { 1.0 }
-            } else { r.unit() * 5.0 - 1.0 };
+            } else if r.chance(1, 6) { 0.0 } else { r.unit() * 5.0 - 1.0 };
             vec![Val::L(l), Val::G(dir), Val::F(h)]
         }
         "coll.scale_all" => vec![Val::L(gen_list(r)), Val::F(gen_factor(r))],
